@@ -396,7 +396,9 @@ def r_conv(ctx):
                         nrev += sum(1 for c_ in ast.walk(f.node) if isinstance(c_, ast.Call) and isinstance(c_.func, ast.Attribute)
                                     and c_.func.attr == 'reverse' and isinstance(c_.func.value, ast.Name) and c_.func.value.id == lst)
                         dgt = e.term[0]
-                        letter_ok = name != 'number_to_dna' or (dgt[0] == 'sub' and dgt[1] == ('c', ALPHA))
+                        mapped_ = any(x[0] == 'comp' and x[2][0] == 'sub' and x[2][1] == ('c', ALPHA) and x[2][2][0] == 'iter'
+                                      and len(x[3]) == 1 and not x[3][0][1] for _n, x in ctx.all_subterms(f))
+                        letter_ok = name != 'number_to_dna' or (dgt[0] == 'sub' and dgt[1] == ('c', ALPHA)) or mapped_
                         if nrev >= 1 and letter_ok:
                             # the same reversal must serve every arm; one syntactic reversal of the list is what is accepted
                             ok_front = True
@@ -421,6 +423,14 @@ def r_conv(ctx):
         wit_pad = False
         for r in rets:
             t = f.term(r.stmt.value, r)
+            # S.rjust(width, zero symbol): left pad of a string
+            if name == 'number_to_dna' and t[0] == 'call' and t[1][0] == 'attr' and t[1][2] in ('rjust', 'ljust', 'zfill', 'center'):
+                if t[1][2] == 'rjust' and len(t[2]) == 2 and t[2][0] == width and t[2][1] in (('c', 'A'), ('sub', ('c', ALPHA), ('c', 0))):
+                    okpad = True
+                elif t[1][2] != 'rjust' or (len(t[2]) == 2 and t[2][1][0] == 'c' and t[2][1] != ('c', 'A')) or \
+                        (len(t[2]) >= 1 and t[2][0] != width and t[2][0][0] in ('c', 'bin')):
+                    wit_pad = True
+                continue
             if t[0] == 'bin' and t[1] == '+':
                 pad, body = t[2], t[3]
                 # recognised deviations: pad on the right, wrong pad symbol, wrong width
